@@ -15,7 +15,8 @@ META = dict(
     shards={"quick": 8, "thorough": 16},
     watchdog_s={"quick": 1500, "thorough": 5400},
     evaluations_counter="cases",
-    min={"sequences": 200, "scale_updates_checked": 1000, "adopted_scales_checked": 50, "saturation_checks": 100},
+    min={"sequences": 200, "scale_updates_checked": 1000, "adopted_scales_checked": 50, "saturation_checks": 100,
+         "sequences_reusing_one_context_object": 20},
     anchors=["calibrate.py:Calibration.calibrate_input",
              "calibrate.py:Calibration.calibrate_output",
              "calibrate.py:_updated_scale",
@@ -245,15 +246,23 @@ def run(ctx):
                     buf = None
                     if reuse_buffer:
                         ctx.count("sequences_through_one_buffer")
+                    # one Calibration object may serve several successive `with` blocks (ctx = Calibration(...); with ctx: ...;
+                    # with ctx: ...): every block calibrates
+                    shared = None
+                    if nctx >= 2 and r.random() < 0.4:
+                        for ci in range(1, nctx):
+                            moms[ci] = moms[0]
+                        shared = oq.Calibration(momentum=moms[0], streamline=streamline)
+                        ctx.count("sequences_reusing_one_context_object")
                     for ci in range(nctx):
-                        dbg = bool(r.random() < 0.1)  # debug=True only prints; it must not change what is computed
+                        dbg = bool(r.random() < 0.1) and shared is None  # debug=True only prints; it must not change what is computed
                         if dbg:
                             ctx.count("contexts_with_debug")
                         import contextlib
                         import io as _io
 
                         with contextlib.redirect_stdout(_io.StringIO()) if dbg else contextlib.nullcontext(), \
-                                oq.Calibration(momentum=moms[ci], streamline=streamline, debug=dbg):
+                                (shared if shared is not None else oq.Calibration(momentum=moms[ci], streamline=streamline, debug=dbg)):
                             rec.momentum = moms[ci]
                             for b in range(nb[ci]):
                                 # attention squares its input magnitude (q.k^T): keep the float model far from float16's
